@@ -303,6 +303,31 @@ def _load(modname):
 
 def _task(args):
     modname, tier, seed, camp_idx, shard, nshards, scratch_root = args
+    cov = _linecov_start(modname, camp_idx, shard)
+    try:
+        return _task_inner(args)
+    finally:
+        if cov is not None:
+            cov.stop()
+            cov.save()
+
+
+def _linecov_start(modname, camp_idx, shard):
+    """Development aid (tools/linecov.sh): with VERIF_LINECOV=<dir> every worker records which lines of the
+    repository it executed. Off by default; needs the 'coverage' package; has no influence on any verdict."""
+    d = os.environ.get("VERIF_LINECOV")
+    if not d:
+        return None
+    import coverage
+    repo = os.environ.get("VERIF_REPO", "/repo")
+    cov = coverage.Coverage(data_file=os.path.join(d, "cov.%s.%d.%d" % (modname, camp_idx, shard)),
+                            include=[repo + "/verif/*", repo + "/scripts/*"], omit=[repo + "/verif/tests/*"])
+    cov.start()
+    return cov
+
+
+def _task_inner(args):
+    modname, tier, seed, camp_idx, shard, nshards, scratch_root = args
     try:
         mod = _load(modname)
         camp = mod.campaigns(tier)[camp_idx]
